@@ -324,6 +324,15 @@ func TestC10Prop(t *testing.T) {
 			}
 			return -1
 		}
+		// most actions concentrate on a few "hot" characteristics so that several connections end up
+		// subscribed to the same one while it changes
+		pickChar := func(t *rapid.T, label string) *chr {
+			if rapid.IntRange(0, 9).Draw(t, label+"-hot") < 6 {
+				hot := []int{0, 1, 7}
+				return w.chars[hot[rapid.IntRange(0, len(hot)-1).Draw(t, label+"-hotchar")]]
+			}
+			return w.chars[rapid.IntRange(0, len(w.chars)-1).Draw(t, label)]
+		}
 		t.Repeat(map[string]func(*rapid.T){
 			"subscribe": func(t *rapid.T) {
 				c := pickCtl(true)
@@ -335,11 +344,7 @@ func TestC10Prop(t *testing.T) {
 				var chosen []*chr
 				on := rapid.IntRange(0, 3).Draw(t, "on") > 0
 				for i := 0; i < n; i++ {
-					ch := w.chars[rapid.IntRange(0, len(w.chars)-1).Draw(t, "char")]
-					if !ch.ev && rapid.Bool().Draw(t, "prefer-ev") {
-						evs := []int{0, 1, 2, 7, 8} // on, brightness, text, switch0.on, switch1.on
-						ch = w.chars[evs[rapid.IntRange(0, len(evs)-1).Draw(t, "evchar")]]
-					}
+					ch := pickChar(t, "char")
 					dup := false
 					for _, x := range chosen {
 						dup = dup || x == ch
@@ -392,7 +397,7 @@ func TestC10Prop(t *testing.T) {
 				fail(t, w, w.sync(what))
 			},
 			"local-set": func(t *rapid.T) {
-				ch := w.chars[rapid.IntRange(0, len(w.chars)-1).Draw(t, "char")]
+				ch := pickChar(t, "char")
 				v := rapid.SampledFrom(ch.values).Draw(t, "value")
 				if rapid.IntRange(0, 3).Draw(t, "same") == 0 {
 					v = ch.cur
@@ -427,6 +432,9 @@ func TestC10Prop(t *testing.T) {
 				var writes []wr
 				for i := 0; i < n; i++ {
 					ch := cands[rapid.IntRange(0, len(cands)-1).Draw(t, "char")]
+					if hc := pickChar(t, "wchar"); hc.pw {
+						ch = hc
+					}
 					dup := false
 					for _, x := range writes {
 						dup = dup || x.ch == ch
